@@ -16,6 +16,7 @@ import ZapVerif.Model.TransCaptureX
 import ZapVerif.Model.TransJsonEncX
 import ZapVerif.Model.TransConsoleX
 import ZapVerif.Model.TransSlogX
+import ZapVerif.Model.TransOpenX
 import ZapVerif.Model.Entry
 import ZapVerif.Gen.TransProbe
 /-! `zvdrv CTR`: the interpreter side of the translator's differential test.  An op names a generated table and a
@@ -244,6 +245,18 @@ def consolePar : ZapVerif.TransConsole.Par :=
     addFields := fun fs sp s => match fs with | .list ops => jeOps sp ops s | _ => s }
 end jsonenc
 
+/-- the scripted registry of harness/cmd/zvh/trans_open.go: "zvo://…" opens a sink named by its path, "zvf://…" fails
+    with an error named by its path; `strings.ToLower` on ASCII -/
+def openPar : ZapVerif.TransOpen.Par :=
+  { newSink := fun p => match p with
+      | .bytes (122 :: 118 :: 111 :: _) => ([p], [])
+      | .bytes (122 :: 118 :: 102 :: _) => ([], [p])
+      | _ => ([], [.int 0]),
+    openFile := fun _ => ([], []), isAbs := fun _ => false, parse := fun _ => (.list [], []), port := fun _ => [],
+    hostname := fun _ => [], lookup := fun _ _ => (.list [], false), factory := fun _ _ => ([], []), levelOK := fun _ => true,
+    newEncoder := fun _ _ => ([], []), keys := fun _ => [], mapGet := fun _ _ => .list [], sort := id,
+    toLower := ZapVerif.OpenBuild.lowerBytes }
+
 def tables : List (String × (Env → Ctx)) := [
   ("TransProbe", fun _ => { ext := probeExt, funs := ZapVerif.Gen.TransProbe.funs }),
   ("TransJsonSep", fun _ => ZapVerif.TransJsonSep.X),
@@ -257,6 +270,7 @@ def tables : List (String × (Env → Ctx)) := [
   ("TransSlog", fun _ => ZapVerif.TransSlog.X
       { coreWith := fun c fs => .list [c, fs], check := fun _ _ => .list [], frame := fun _ => (.list [], false), take := fun _ => [] }),
   ("TransConsole", fun _ => ZapVerif.TransConsole.X consolePar),
+  ("TransOpen", fun _ => ZapVerif.TransOpen.X openPar),
   ("TransJsonEnc", fun _ => ZapVerif.TransJsonEnc.X jsonEncPar),
   ("TransSweeten", fun _ => ZapVerif.TransSweeten.X sweetenPar),
   ("TransLocked", fun _ => ZapVerif.TransLocked.X lockedPar),
@@ -281,6 +295,9 @@ def handle (op : Json) : R Json := do
   | .done rs fl =>
     let hide := (arrD op "hide").toList.filterMap fun j => (j.getStr?.toOption).map fun s => s.toUTF8.toList
     let drop := (arrD op "drop").toList.filterMap fun j => j.getStr?.toOption
+    let blank := (arrD op "blank").toList.filterMap fun j => j.getNat?.toOption
+    let rs := rs.zipIdx.map fun (v, i) =>
+      if blank.contains i then (match v with | .list (.bytes _ :: r) => .list (.bytes [] :: r) | v => v) else v
     return obj [("res", Json.arr (rs.map jval).toArray), ("flds", jenv ((hideEv hide fl).filter fun p => !drop.contains p.1))]
   | .panic p => return obj [("panic", Json.str (panicName p))]
   | .stuck w => return obj [("stuck", Json.str w)]
